@@ -209,7 +209,7 @@ def gen_comb(run):
   for name in names_of(comb) + ["__call__"]:
     for delay in list(range(1, run.pick(8, 12) + 1)) + [32, 64, 65, 130]:
       for par in ("-1/2", "1/2", "9/10", "1", "99999999/100000000", "-9999999999/10000000000", "1000001/1000000",
-                  "tau1", "tau10", "tauinf", "tau4e7", "tau1e12"):
+                  "tau1", "tau10", "tauinf", "tau4e7", "tau1e12", "tau-5", "tau-1/2", "tau-inf"):
         yield (name, delay, par)
 
 
@@ -223,13 +223,14 @@ def run_comb(case):
   if delay > 12:
     x = x + [Q(0)] * (2 * delay) + [Q(1), Q(-2)] + [Q(0)] * delay
   if kind == "tau":
-    tau = {"tau1": 1.0, "tau10": 10.0, "tauinf": inf, "tau4e7": 4e7, "tau1e12": 1e12}[par]
+    tau = {"tau1": 1.0, "tau10": 10.0, "tauinf": inf, "tau4e7": 4e7, "tau1e12": 1e12,
+           "tau-5": -5.0, "tau-1/2": -0.5, "tau-inf": -inf}[par]      # a negative time constant: alpha > 1, by the same formula
     filt = design(delay, tau)
     alpha_expected = math.exp(-delay / tau)
     den = {k: F(v) for k, v in filt.denpoly.terms()}
     alpha = -den.get(delay, F(0))
     # e ** x with the rounded constant e: relative error grows like |x| * u
-    if abs(float(alpha) - alpha_expected) > (4 + 2 * delay / tau) * U * alpha_expected:
+    if abs(float(alpha) - alpha_expected) > (4 + 2 * abs(delay / tau)) * U * alpha_expected:
       return bad("comb:alpha", "comb.tau must use alpha = e**(-delay/tau)", alpha_expected, float(alpha))
   else:
     alpha = F(float(F(par)))          # the float actually handed to the design
